@@ -1,7 +1,103 @@
-(* C05 (PARTIAL): the clauses about Body, RawMsg and Buf of a finished message *)
-From Sipsp Require Import Harness Framing.
-Theorem C05_body_and_raw_message_partial : forall m h e,
+(* C05: reported fields are contained, nested and ordered like the text they describe.
+   PROVED for the model of ParseSIPMsg, ParseHeaders and ParseHdrLine (Layout.v, on top of the safety
+   invariants of C04): for every flag set, every header / contact capacity, every buffer and start
+   offset, fresh or Reset object, one call or any schedule of growing prefixes - whenever the parse
+   succeeds:
+   * the raw message is exactly [start offset, returned offset), Buf ends at the returned offset, the
+     body ends at the returned offset and starts where the header block ended;
+   * every first-line field ends at or before the first header;
+   * the stored headers form a chain: each lies in a line [a, e) of its own with the name starting at
+     a, not empty, ending before e; the value ends at or before e; the next stored header's line begins
+     at or after e (message order, no overlap: C05_stored_headers_in_message_order), the first line
+     begins at or after the end of the first line of the message, the last ends at or before the body;
+   * for every header whose value is parsed generically, and for From / To, the value is empty or
+     begins after the end of the name (inside the line, after the colon).
+   PARTIAL: for Call-ID, CSeq, Content-Length, Contact, Expires, P-Asserted-Identity parsed into a
+   PHdrVals only the upper bound of the value is proved (not that it starts after the name); the
+   order of the first-line fields among themselves, white-space trimming of values, the nesting of
+   sub-fields (display name / URI / parameters / tag inside the value; CSeq number and method inside
+   the CSeq value) are not proved: the structural oracle of the C05 driver covers them. *)
+From Sipsp Require Import Harness Framing Resume SafeMore SafeMsg Layout.
+
+Theorem C05_body_and_raw_message : forall m h e,
   pf_end (m_body (finished m h e)) = h + (e - h) /\
   m_raw (finished m h e) = Some (m_offs m, e - m_offs m) /\ m_buflen (finished m h e) = e /\
   msg_parsed (finished m h e) = true.
 Proof. exact finished_views. Qed.
+
+(* one header line: what the invariant gives when the line is complete *)
+Theorem C05_header_line : forall a pre rest i st, i = nnat (length pre) -> HInv pre i st -> NI a pre i st ->
+  match run hl_iter pre rest i 0 st with
+  | Done o EOk st' =>
+    let h := hx_h st' in
+    po (h_name h) = a /\ 0 < pl (h_name h) /\ pf_end (h_name h) < o /\ pf_end (h_val h) <= o /\
+    (weak6 (h_type h) = false \/ hx_pv st' = None -> pl (h_val h) = 0 \/ pf_end (h_name h) < po (h_val h))
+  | Done _ _ _ => True
+  | _ => False
+  end.
+Proof.
+  intros a pre rest i st Hi Hinv Hni. pose proof (hdrline_layout a pre rest i st Hi (conj Hinv Hni)) as H.
+  destruct (run hl_iter pre rest i 0 st) as [o e st'| |]; auto. destruct e; auto.
+  destruct H as (_ & _ & _ & H4). destruct (H4 eq_refl) as [_ [((N1 & N2 & N3) & L2 & L3) _]]. auto.
+Qed.
+
+(* the header block *)
+Theorem C05_header_block : forall a0 buf offs st, offs <= nnat (length buf) -> BInv a0 (rev (firstn (N.to_nat offs) buf)) offs st ->
+  match parse_headers buf offs st with
+  | Done o e st' => o <= nnat (length buf) /\
+                    (e = EMore -> offs <= o /\ BInv a0 (rev (firstn (N.to_nat o) buf)) o st') /\
+                    (e = EOk -> offs <= o /\ chain a0 (stored (hs_l st')) o)
+  | _ => False
+  end.
+Proof. exact headers_layout. Qed.
+
+(* what a chain says, header by header and pairwise *)
+Theorem C05_every_stored_header_lies_in_its_line : forall lo s hi h, chain lo s hi -> In h s ->
+  exists a e, lo <= a /\ e <= hi /\
+    po (h_name h) = a /\ 0 < pl (h_name h) /\ pf_end (h_name h) < e /\ pf_end (h_val h) <= e /\
+    (weak6 (h_type h) = false -> pl (h_val h) = 0 \/ pf_end (h_name h) < po (h_val h)).
+Proof.
+  intros lo s hi h Hc Hin. destruct (chain_all lo s hi h Hc Hin) as (a & e & A1 & A2 & ((N1 & N2 & N3) & L2 & L3)).
+  exists a, e. auto 10.
+Qed.
+Theorem C05_stored_headers_in_message_order : forall lo s hi, chain lo s hi -> forall j j', (j < j')%nat -> (j' < length s)%nat ->
+  pf_end (h_name (nth j s hdr0)) < po (h_name (nth j' s hdr0)) /\ pf_end (h_val (nth j s hdr0)) <= po (h_name (nth j' s hdr0)).
+Proof. exact chain_order. Qed.
+
+(* the message: one call on a fresh or Reset object ... *)
+Theorem C05_message : forall flags buf offs m0, offs <= nnat (length buf) ->
+  (exists L nh nc, m0 = msg_init L (repeat hdr0 nh) (repeat pfrom0 nc)) \/ (exists m, m0 = msg_reset m) ->
+  match parse_sipmsg flags buf offs m0 with
+  | Done o EOk m' =>
+    offs <= o /\ o <= nnat (length buf) /\ m_offs m' = offs /\
+    m_raw m' = Some (offs, o - offs) /\ m_buflen m' = o /\ pf_end (m_body m') = o /\
+    exists a0, offs <= a0 /\ fl_inv a0 (m_fl m') /\ chain a0 (stored (hs_l (m_hs m'))) (po (m_body m'))
+  | Done _ _ _ => True
+  | _ => False
+  end.
+Proof. exact fresh_message_layout. Qed.
+(* ... and every schedule of growing prefixes *)
+Theorem C05_message_every_schedule : forall flags b cuts k m, sorted_from (N.to_nat k) cuts -> k <= nnat (length b) ->
+  MInv (rev (firstn (N.to_nat k) b)) k m -> MLay (rev (firstn (N.to_nat k) b)) k m ->
+  match chunked (parse_sipmsg flags) b cuts k m with
+  | Done o EOk m' =>
+    exists a0, m_offs m' <= a0 /\ fl_inv a0 (m_fl m') /\ chain a0 (stored (hs_l (m_hs m'))) (po (m_body m')) /\
+               pf_end (m_body m') = o /\ m_raw m' = Some (m_offs m', o - m_offs m') /\ m_buflen m' = o
+  | _ => True
+  end.
+Proof. exact message_layout_chunked. Qed.
+Theorem C05_fresh_and_reset_objects_satisfy_the_invariants : forall pre o,
+  (forall L nh nc, MInv pre o (msg_init L (repeat hdr0 nh) (repeat pfrom0 nc)) /\ MLay pre o (msg_init L (repeat hdr0 nh) (repeat pfrom0 nc))) /\
+  (forall m, MInv pre o (msg_reset m) /\ MLay pre o (msg_reset m)).
+Proof. intros pre o. split; [intros L nh nc; split; [apply MInv_init|apply MLay_init]|intros m; split; [apply MInv_reset|apply MLay_reset]]. Qed.
+
+(* the hypotheses are satisfiable and the conclusion is not trivial: a request with three headers and no body *)
+Example C05_example :
+  match parse_sipmsg 0 [73;78;86;73;84;69;32;115;105;112;58;97;32;83;73;80;47;50;46;48;13;10;86;105;97;58;32;120;13;10;70;114;111;109;58;32;60;115;105;112;58;98;62;59;116;97;103;61;49;13;10;67;97;108;108;45;73;68;58;32;99;13;10;13;10] 0 (msg_init 0 (repeat hdr0 5) (repeat pfrom0 2)) with
+  | Done o EOk m' => o = 65 /\ map (fun h => (h_name h, h_val h)) (stored (hs_l (m_hs m')))
+                               = [(mkpf 22 3, mkpf 27 1); (mkpf 30 4, mkpf 36 13); (mkpf 51 7, mkpf 60 1)]
+  | _ => False
+  end.
+Proof. vm_compute. split; reflexivity. Qed.
+Print Assumptions C05_message.
+Print Assumptions C05_message_every_schedule.
